@@ -16,10 +16,31 @@ from harness.core import Prop, outcome, orat, unrat
 
 EPS = 2.0 ** -52
 BINS = 256
+LIMIT = 6000          # arrays up to this size are sent value by value to the binning model
+MASK64 = (1 << 64) - 1
+# Which of several maximising cuts comes back.  Cuts inside one run of empty bins give the float criterion identical
+# operands, so np.argmax (first maximum) returns the first cut of the run; the mechanism model says so
+# (`returned_is_first_of_run`) and with this switch on the check demands it of the implementation (impl-vs-model).
+# The property text itself only asks for *a* maximiser: switched off, the position inside the run is recorded as a
+# feature and not judged.
+STRICT_FIRST_OF_RUN = True
+# Behaviour the property text does not reach (NaN kept -> ValueError; constant arrays and stub histograms with empty end
+# bins -> first centre through 0/0) is compared with the model and the outcome recorded as a feature
+# ("outside-property:...:as-modelled" / "...:DIFFERS(recorded only)"); it is judged (impl-vs-model) only with this switch on.
+JUDGE_OUTSIDE_PROPERTY = False
 
 
 def fnum(v):
     return None if v is None or (isinstance(v, float) and math.isnan(v)) else float(v)
+
+
+def m_n(case, clean):
+    """the values the binning model was given: the runs of a run-length encoded case, every value otherwise"""
+    return [v for v, _ in case["rle"] if v is not None] if "rle" in case else range(int(clean.size))
+
+
+def np_next(v, d):
+    return float(np.nextafter(v, math.inf if d > 0 else -math.inf))
 
 
 def run_otsu(x, **kw):
@@ -254,10 +275,40 @@ class C15(Prop):
         k = rng.choice([1, 2, 3, 10, -1, -7, 20, -20, -60, 100]) if dtype == "float" else rng.choice([1, 2, 5])
         return {"kind": "extreme-cut-" + side, "dtype": dtype, "shape": shape, "rle": rle, "scale_exp": k}
 
+    def gen_stub(self, rng):
+        """a hand-made histogram (handed to otsu through a stubbed np.histogram): empty bins at one or both ends, so that
+        a class of some cuts is empty and the float mechanism produces 0/0"""
+        n = rng.choice([2, 3, 8, 64, 256, 256])
+        hist = [rng.choice([0, 0, 1, 2, 7, 100]) for _ in range(n)]
+        a, b = rng.randint(0, n - 1), rng.randint(0, n - 1)
+        hist[a], hist[b] = max(1, hist[a]), max(1, hist[b])
+        end = rng.choice(["first", "last", "both", "none"])
+        if end in ("first", "both"):
+            for i in range(rng.randint(1, max(1, n // 3))):
+                hist[i] = 0
+        if end in ("last", "both"):
+            for i in range(rng.randint(1, max(1, n // 3))):
+                hist[n - 1 - i] = 0
+        if end == "none":
+            hist[0], hist[-1] = max(1, hist[0]), max(1, hist[-1])
+        if sum(hist) == 0:
+            hist[n // 2] = 3
+        lo = rng.choice([0.0, -4.0, 1.0, 100.0])
+        return {"kind": "stub-histogram", "hist": hist, "lo": lo, "hi": lo + rng.choice([1.0, 8.0, 256.0, 0.5])}
+
     def generate(self, rng, tier):
         r = rng.random()
         if r < 0.06:
             return self.gen_extreme(rng, tier)
+        if r > 0.96:
+            return self.gen_stub(rng)
+        if r > 0.94:   # constant arrays (outside the property; the model's NaN path is recorded)
+            n = rng.choice([1, 2, 5, 40])
+            c = rng.choice([0.0, 5.0, -2.5, 1e6, 2.0 ** -30])
+            v = [c] * n
+            if rng.random() < 0.4:
+                v.insert(rng.randint(0, n), None)
+            return {"kind": "constant", "dtype": "float", "shape": [len(v)], "data": v, "scale_exp": 1}
         if r < 0.18:
             kind, dtype, v = self.gen_symmetric(rng)
         else:
@@ -304,6 +355,20 @@ class C15(Prop):
                "data": [-4.0, -a, a, -a, a, 4.0, -a, a, -a, a, -a, a, -b, b, a, -a, -4.0, a, -a, 4.0], "scale_exp": 2}
         yield {"kind": "symmetric-edge-heavy", "dtype": "float", "shape": [10],
                "data": [-4.0, 4.0, -4.0, 4.0, -4.0, 4.0, -0.765625, 0.765625, -4.0, 4.0], "scale_exp": -2}
+        # outside the property: the NaN path of the mechanism (empty end bins), through a stubbed np.histogram / constant data
+        yield {"kind": "stub-histogram", "hist": [0, 3, 0, 2], "lo": 0.0, "hi": 4.0}
+        yield {"kind": "stub-histogram", "hist": [2, 1, 0, 0], "lo": 0.0, "hi": 4.0}
+        yield {"kind": "stub-histogram", "hist": [0, 0, 5, 1, 0, 2, 0, 0], "lo": -4.0, "hi": 4.0}
+        yield {"kind": "stub-histogram", "hist": [0] * 100 + [7] + [0] * 100 + [3] + [0] * 54, "lo": 1.0, "hi": 257.0}
+        yield {"kind": "stub-histogram", "hist": [2, 0, 1, 3], "lo": 0.0, "hi": 4.0}
+        yield {"kind": "constant", "dtype": "float", "shape": [4], "data": [5.0, 5.0, 5.0, 5.0], "scale_exp": 1}
+        yield {"kind": "constant", "dtype": "float", "shape": [3], "data": [None, 0.0, 0.0], "scale_exp": 1}
+        # values one ulp either side of an interior edge, and on it (the correction steps of np.histogram decide)
+        e = 1.0 + 77 / 256
+        yield {"kind": "edge-ulp", "dtype": "float", "shape": [8],
+               "data": [1.0, 2.0, e, np_next(e, 1), np_next(e, -1), 1.5, np_next(1.5, -1), np_next(2.0, -1)], "scale_exp": 1}
+        yield {"kind": "edge-ulp", "dtype": "float", "shape": [6],
+               "data": [0.1, 0.7, 0.1 + 0.6 * 3 / 256, 0.1 + 0.6 * 7 / 256, 0.1 + 0.6 * 100 / 256, 0.1 + 0.6 * 255 / 256], "scale_exp": 2}
         # 2^20 elements: two populations in the last (first) two bins and one far outlier; the optimum is the extreme cut
         h = 2 ** 19
         yield {"kind": "extreme-cut-last", "dtype": "float", "shape": [1024, 1024],
@@ -313,6 +378,8 @@ class C15(Prop):
 
     # ------------------------------------------------------------------ evaluation
     def evaluate(self, case, ctx):
+        if case["kind"] == "stub-histogram":
+            return self.eval_stub(case, ctx)
         x = build(case)
         isint = case.get("dtype") == "int"
         flat = x.ravel()
@@ -322,15 +389,18 @@ class C15(Prop):
                  "size:" + ("2" if clean.size == 2 else "3" if clean.size == 3 else "<=50" if clean.size <= 50 else ">50")}
         distinct = np.unique(clean)
         if distinct.size < 2:
-            return outcome({}, {}, {}, hyp=False, features=[], note="fewer than two distinct finite values")
+            return self.eval_outside(case, x, flat, clean, ctx)
         lo, hi = float(clean.min()), float(clean.max())
+        hist = edges = None
         try:
             hist, edges = np.histogram(clean, bins=BINS)
         except ValueError:  # "Too many bins for data range": 256 finite-sized float bins do not exist
-            return outcome({}, {}, {}, undetermined=True, features=feats | {"range-below-float-resolution(histogram raises)"},
-                           note="range below float resolution")
-        if not np.all(np.diff(edges) > 0):
-            return outcome({}, {}, {}, undetermined=True, features=feats | {"edges-not-strictly-increasing"},
+            pass
+        # --- np.histogram against its double-precision model (every value, no tolerance)
+        binning_ok, bfeats, drep = self.check_binning(case, flat, clean, isint, hist, edges, ctx)
+        if hist is None:
+            return outcome({}, {}, {}, undetermined=binning_ok, model_ok=binning_ok,
+                           features=feats | bfeats | {"range-below-float-resolution(histogram raises)"},
                            note="range below float resolution")
         # --- the implementation at its observation point (and the two relational runs)
         arg = x if not has_nan else clean.reshape(-1)
@@ -340,7 +410,7 @@ class C15(Prop):
         scaled = (arg * (2 ** k)) if (isint and k >= 0) else (arg * (2.0 ** k))
         t_sc = run_otsu(scaled)
         impl = {"threshold": t, "threshold_remove_nan": t_rm, "threshold_scaled": t_sc}
-        # --- Lean: mechanism + brute-force specification on NumPy's histogram; exact binning of the raw data
+        # --- Lean: mechanism (NaN-carrying) + brute-force specification on NumPy's histogram
         rep = ctx.driver.call("c15.hist", hist=[int(v) for v in hist], edges=[core.rat(float(v)) for v in edges])
         centres = [float(unrat(c)) for c in rep["centres"]]
         crit = [unrat(c) for c in rep["spec_crit"]]
@@ -348,13 +418,16 @@ class C15(Prop):
         du = abs(float(unrat(rep["spec_best_du"])))
         tol = 1e-9 + 2048 * EPS * max(abs(float(edges[0])), abs(float(edges[-1]))) / du if du > 0 else 1.0
         near = [j for j, c in enumerate(crit) if c >= best * (1 - Fraction(tol))]
+        cls = rep["class_start"]                # first cut of the run of empty bins each cut lies in (Lean: classStart)
+        near_classes = sorted({cls[j] for j in near})
         model_t = float(unrat(rep["threshold"]))
         model = {"threshold": model_t, "index": rep["index"], "threshold_remove_nan": model_t,
                  "threshold_scaled": math.ldexp(model_t, k)}
         spec = {"best_index": rep["spec_best_index"], "best_criterion": float(best), "cuts_within_rounding": near[:8],
+                "tie_classes_within_rounding": near_classes[:8],
                 "centre_of_best": centres[rep["spec_best_index"]], "range": [lo, hi]}
         if any(isinstance(v, dict) for v in impl.values()):
-            return outcome(impl, model, spec, spec_ok=False, model_ok=False, features=feats)
+            return outcome(impl, model, spec, spec_ok=False, model_ok=False, features=feats | bfeats)
         # (a) one of the 256 centres
         idx = [j for j, c in enumerate(centres) if c == t]
         is_centre = len(idx) >= 1
@@ -406,46 +479,151 @@ class C15(Prop):
                 feats.add("extreme-cut:optimum-is-first-cut")
             else:
                 feats.add("extreme-cut:optimum-cuts-off-the-outlier")
-        # --- correspondence with the mechanism model
-        model_ok = rep["mech_is_spec"] and rep["model_index_is_best"]
-        # The property leaves the choice among cuts that attain the maximum (exactly, e.g. across empty bins, or
-        # within rounding) open, so that choice is not tested: with a unique maximiser the returned centre must be
-        # the model's, otherwise any cut within rounding of the maximum is accepted.
-        ambiguous = len(near) > 1
-        if not ambiguous:
-            feats.add("unique-maximiser(strict comparison)")
-            model_ok = model_ok and t == model_t
+        # --- correspondence with the mechanism model.  The histogram comes from data with two distinct values, so
+        # its end bins are occupied (`guard`): no class is empty, no NaN arises, the mechanism is the specification.
+        model_ok = rep["guard"] and rep["first_nan"] is None and rep["mech_is_spec"] and rep["model_index_is_best"]
+        model_ok = model_ok and binning_ok
+        # Which maximiser.  Cuts in one run of empty bins separate the same two groups: their class sums, hence all
+        # float inputs of the criterion, are identical (Lean: `empty_run_ties`), the float criterion is the same number
+        # at each of them and np.argmax returns the first.  So when every cut within rounding of the maximum lies in ONE
+        # such run, the returned centre must be the model's (first cut of the run).  When cuts of different runs are
+        # within rounding of each other, which run wins is decided by rounding and is not tested - but the returned cut
+        # must still be the first of its own run.
+        first_of_run = ki is not None and ki < len(cls) and cls[ki] == ki
+        impl["first_cut_of_its_run"] = first_of_run
+        model["first_cut_of_its_run"] = True
+        if not first_of_run:
+            feats.add("returned-cut-is-not-the-first-of-its-run")
+        strict_run = first_of_run or not STRICT_FIRST_OF_RUN
+        if len(near_classes) == 1:
+            feats.add("unique-maximiser(strict comparison)" if len(near) == 1
+                      else "maximisers-in-one-empty-bin-run(strict comparison: first cut of the run)")
+            model_ok = model_ok and strict_run and (t == model_t if STRICT_FIRST_OF_RUN else ki in near)
         else:
-            feats.add("several-maximisers(choice not tested)")
-            model_ok = model_ok and (ki in near)
-        # --- binning model on the raw data (skipped when a value is within 1e-9 bin widths of an edge)
-        if clean.size <= 6000:
-            drep = ctx.driver.call("c15.data", data=[orat(float(v)) for v in flat], bins=BINS,
-                                   np_edges=[core.rat(float(v)) for v in edges])
-            margin = float(unrat(drep["min_margin"]))
-            # NumPy bins against its float edges, which sit within a few ulps of the exact ones
-            width = (hi - lo) / BINS
-            if margin < 1e-9 + 8 * EPS * max(abs(lo), abs(hi)) / width or not drep["on_edge_ok"]:
-                feats.add("value-within-1e-9-of-edge(binning not compared)")
-            else:
-                feats.add("binning-compared")
-                same_hist = drep["hist"] == [int(v) for v in hist]
-                model["hist_equal"] = same_hist
-                model_ok = model_ok and same_hist
-                if same_hist and not ambiguous:
-                    dt = float(unrat(drep["threshold"]))
-                    model["threshold_exact_binning"] = dt
-                    model_ok = model_ok and abs(dt - t) <= 16 * EPS * max(abs(lo), abs(hi))
-            if "value-on-exact-edge" not in feats and case["kind"] == "int256":
+            feats.add("maximisers-in-%s-runs-within-rounding(which run not tested; first cut of the run demanded)"
+                      % ("2" if len(near_classes) == 2 else "3+"))
+            model_ok = model_ok and (ki in near) and strict_run
+        # --- the exact-uniform-edges layer (otsuArr on the data as given, NaN = none): same histogram => same threshold
+        if drep is not None and drep["exact"] is not None:
+            ex = drep["exact"]
+            same_hist = ex is not None and ex["hist"] == [int(v) for v in hist]
+            feats.add("exact-uniform-binning:" + ("same-histogram" if same_hist else "differs-near-an-edge"))
+            if drep["otsu_remove_nan"] is None or (drep["otsu_keep_nan"] is None) != has_nan:
+                model_ok = False
+            elif same_hist and len(near_classes) == 1:
+                dt = float(unrat(drep["otsu_remove_nan"]))
+                model["threshold_exact_binning"] = dt
+                model_ok = model_ok and abs(dt - t) <= 16 * EPS * max(abs(lo), abs(hi))
+            if case["kind"] == "int256":
                 feats.add("values-on-bin-edges")
-        else:
-            # the exact binning of the raw data (every value as a rational through the driver) is only done for
-            # small arrays; the histogram NumPy produced is still the input of all checks above
-            feats.add("binning-model-skipped:large")
+        feats |= bfeats
+        # --- outside the property (recorded, never a verdict): without NaN removal a NaN makes np.histogram raise
+        if has_nan:
+            raw = run_otsu(x)
+            agrees = isinstance(raw, dict) and raw.get("raises") == "ValueError"
+            feats.add("outside-property:NaN-kept->ValueError:" + ("as-modelled" if agrees else "DIFFERS(recorded only)"))
+            if JUDGE_OUTSIDE_PROPERTY and not agrees:
+                model_ok = False
         return outcome(impl, model, spec, spec_ok=spec_ok, model_ok=model_ok, features=feats)
+
+    def check_binning(self, case, flat, clean, isint, hist, edges, ctx):
+        """np.histogram(clean, bins=256) against `npHistogram` (Lean `Float` = IEEE binary64): the same counts and
+        bit-identical edges, or both raise.  Returns (ok, features, driver reply or None)"""
+        if isint and not np.all(np.abs(flat) <= 2 ** 53):
+            return True, {"binning-model-skipped:int-beyond-2^53"}, None
+        feats = set()
+        if "rle" in case:
+            # run-length encoded (large) arrays: the model bins every distinct value once, the counts are weighted by
+            # the run lengths; NaN runs are dropped here as `x[~np.isnan(x)]` drops them
+            runs = [(float(v), int(c)) for v, c in case["rle"] if v is not None]
+            drep = ctx.driver.call("c15.data", bits=[str(core.tok(v) & MASK64) for v, _ in runs],
+                                   data=[orat(v) for v, _ in runs], counts=[c for _, c in runs], bins=BINS)
+            feats.add("binning:run-length-weighted")
+        elif clean.size > LIMIT:
+            # every value travels to the driver; only done for small arrays.  The histogram NumPy produced is still the
+            # input of all criterion checks
+            return True, {"binning-model-skipped:large"}, None
+        else:
+            f64 = flat.astype(np.float64)
+            drep = ctx.driver.call("c15.data", bits=[str(core.tok(float(v)) & MASK64) for v in f64],
+                                   data=[orat(float(v)) for v in f64], bins=BINS)
+        m = drep["np"]
+        if "raises" in m:
+            ok = hist is None and m["raises"].startswith("ValueError")
+            feats.add("binning-compared:both-raise" if ok else "binning-model-raises:" + m["raises"])
+            return ok, feats, drep
+        if hist is None:
+            return False, {"binning:numpy-raises-model-does-not"}, drep
+        same = (m["hist"] == [int(v) for v in hist]
+                and [int(b) for b in m["edge_bits"]] == [core.tok(float(v)) & MASK64 for v in edges]
+                and [unrat(e) for e in m["edges"]] == [Fraction(float(v)) for v in edges])   # f64ToRat of the model's edges
+        # what the theorems need of the edges and of the index estimate: evaluated, and recorded
+        sane = (m["edges_increasing"] and m["first_edge_is_min"] and m["last_edge_is_max"]
+                and m["float_compare_is_exact_compare"])
+        feats.add("binning-compared(every value, bit-exact edges)")
+        feats.add("index-estimate:" + ("exact-for-all" if m["est_exact"] == len(m_n(case, clean)) else
+                                       "off-by-one-corrected" if m["est_within_one"] else "off-by-more-than-one"))
+        if m["est_within_one"] and not m["hist_is_by_edges"]:
+            sane = False     # contradicts theorem np_bin_correct
+        if not m["hist_is_by_edges"]:
+            feats.add("numpy-bin-differs-from-edge-specification")
+        return same and sane, feats, drep
+
+    def eval_outside(self, case, x, flat, clean, ctx):
+        """fewer than two distinct finite values: outside the property, nothing is demanded.  The model still says what
+        happens (one occupied bin in the middle, empty end bins, 0/0 = NaN, np.argmax returns the first NaN: the first
+        centre); agreement is recorded as a feature, never a verdict"""
+        feats = set()
+        note = "fewer than two distinct finite values"
+        if clean.size >= 1 and clean.size <= LIMIT and case.get("dtype") != "int":
+            t = run_otsu(x, remove_nan=True)
+            hist, edges = np.histogram(clean, bins=BINS)
+            rep = ctx.driver.call("c15.hist", hist=[int(v) for v in hist], edges=[core.rat(float(v)) for v in edges])
+            mt = float(unrat(rep["threshold"]))
+            agrees = (not isinstance(t, dict)) and t == mt and rep["first_nan"] == rep["index"]
+            feats.add("outside-property:constant-array->first-centre-via-NaN:" + ("as-modelled" if agrees else "DIFFERS(recorded only)"))
+            if JUDGE_OUTSIDE_PROPERTY and not agrees:
+                return outcome({"threshold": t}, {"threshold": mt}, {}, spec_ok=True, model_ok=False, hyp=False, features=feats, note=note)
+        return outcome({}, {}, {}, hyp=False, features=feats, note=note)
+
+    def eval_stub(self, case, ctx):
+        """a hand-made histogram with empty end bins is handed to otsu through a stubbed np.histogram: outside the
+        property (data with two distinct values always occupies both end bins); it exercises the NaN path of the
+        mechanism model (`critListN`, `argmaxN`).  Recorded as a feature, never a verdict."""
+        from pewlib.process import threshold as th
+
+        hist = np.array(case["hist"], dtype=np.int64)
+        edges = np.linspace(float(case["lo"]), float(case["hi"]), len(case["hist"]) + 1)
+        saved = th.np.histogram
+        calls = []
+
+        def fake(a, bins=10, range=None, **kw):
+            calls.append(bins)
+            return hist.copy(), edges.copy()
+        th.np.histogram = fake
+        try:
+            t = run_otsu(np.array([float(case["lo"]), float(case["hi"])]))
+        finally:
+            th.np.histogram = saved
+        rep = ctx.driver.call("c15.hist", hist=[int(v) for v in hist], edges=[core.rat(float(v)) for v in edges])
+        mt = float(unrat(rep["threshold"]))
+        agrees = (not isinstance(t, dict)) and t == mt and len(calls) >= 1
+        kind = "guarded" if rep["guard"] else ("first-bin-empty" if hist[0] == 0 else "last-bin-empty")
+        if not rep["guard"] and (rep["first_nan"] is None or rep["first_nan"] != rep["index"]):
+            return outcome({}, {"first_nan": rep["first_nan"], "index": rep["index"]}, {}, model_ok=False, spec_ok=True, hyp=False,
+                           features=[], note="model: empty end bin without NaN")
+        feats = {"outside-property:stub-histogram(" + kind + "):" + ("as-modelled" if agrees else "DIFFERS(recorded only)")}
+        return outcome({"threshold": t}, {"threshold": mt, "first_nan": rep["first_nan"]}, {}, spec_ok=True,
+                       model_ok=agrees or not JUDGE_OUTSIDE_PROPERTY, hyp=False, features=feats)
 
     # ------------------------------------------------------------------ shrinking
     def shrink(self, case):
+        if case["kind"] == "stub-histogram":
+            h = case["hist"]
+            if len(h) > 2:
+                yield {**case, "hist": h[:-1]}
+                yield {**case, "hist": h[1:]}
+            return
         if "rle" in case:
             rle = case["rle"]
             if len(case["shape"]) > 1:
